@@ -75,7 +75,21 @@ Unbind(op, f, o) ==
   /\ up' = UpAfter(o)
   /\ UNCHANGED <<start, reused>>
 
+\* GetXattr / ListXattrs: Txattrwalk binds a fresh fid to the attribute; the value (size sz) is read through it
+\* unless it is empty; the fid is clunked in every case and its number returns to the pool with the Rclunk.
+\* A refused Txattrwalk binds nothing.  (One step: the operation's two or three messages are sequential.)
+XAttr(sz, o) ==
+  /\ up /\ Len(hist) < MaxSteps
+  /\ LET f == Get
+         ag == AfterGet
+     IN /\ reused' = (reused \/ f \in sbound)
+        /\ hist' = Append(hist, [op |-> IF sz = 0 THEN "xattr0" ELSE "xattr3", fid |-> f, out |-> o])
+        /\ cache' = Append(ag[1], f)
+        /\ start' = ag[2]
+  /\ UNCHANGED <<files, sbound, up>>
+
 Next == \/ \E op \in {"walk", "attach"}, o \in Outcomes : Bind(op, o)
+        \/ \E sz \in {0, 3}, o \in {"ok", "refused"} : XAttr(sz, o)
         \/ \E op \in {"close", "remove"}, f \in files, o \in Outcomes : Unbind(op, f, o)
 Spec == Init /\ [][Next]_vars
 
